@@ -150,3 +150,13 @@ class InvalidFieldException(ODataException):
     def __init__(self, field_name: str):
         self.field_name = field_name
         super().__init__(f"Invalid field: {field_name}")
+
+
+class UnsupportedNodeException(ODataException):
+    """
+    Thrown when a visitor encounters a type of node it cannot translate.
+    """
+
+    def __init__(self, node_type: str):
+        self.node_type = node_type
+        super().__init__(f"Nodes of type '{node_type}' are not supported here.")
